@@ -130,6 +130,15 @@ CHECKS = {
          "numbered-variable instances, shadowed constants.",
     note="Assumed: A5 dict iteration order not modelled; A9 evaluator/parse deterministic. Termination of the fixed-point loop is checked only with a 5 s limit in the bounded tier.",
     design="6/C13"),
+ 'C16': dict(
+    technique="contract-based deductive verification (pyvc) of the scalar comparers and of the tolerance test; bounded class-member / near-miss runs as stand-in for the numpy-based comparers",
+    text="Proved for all real inputs: between_comparer accepts exactly the CLOSED interval [start, stop] (and never raises on a real input); congruence_comparer reduces expected and student value "
+         "modulo the same modulus and hands them, expected first, to the tolerance test (lemma: x % m lies in [0, m) and is invariant under shifts by multiples of m, for a literal modulus); "
+         "within_tolerance per C04; standardize_cfn_return turns every comparer return (True / False / 'partial' / dict) into a well-formed entry. NOT proved (numpy: vectorize, lstsq, norms): "
+         "MatrixEntryComparer credit, eigenvector / span / phase comparers, LinearComparer -- bounded: members generated by the defining transformation, near misses, wrong shapes, credit grids, "
+         "mismatch policy.",
+    note="Assumed: A8 np.isreal is True on reals (complex numbers outside the value model); least-squares residual = distance to span and LinearComparer fit errors are numerical linear algebra (assumed, bounded-checked only).",
+    design="6/C16"),
 }
 
 NOT_YET = {}
